@@ -419,6 +419,10 @@ class NpShim:
     def isclose(a, b, rtol=1e-05, atol=1e-08):
         if isinstance(a, Q) or isinstance(b, Q):
             return q_isclose(a, b)
+        if not isinstance(a, (float, _np.ndarray, _np.generic)) and \
+                not isinstance(b, (float, _np.ndarray, _np.generic)) and \
+                isinstance(a, numbers.Integral) and isinstance(b, numbers.Integral):
+            return q_isclose(a, b)     # (possibly symbolic) integers: exact
         return _np.isclose(a, b, rtol=rtol, atol=atol)
 
     @staticmethod
